@@ -29,6 +29,31 @@ def fragments_needed(frame, res, upstream):
     return n
 
 
+def stale_query_loss(r, f):
+    """the recorded way a packet for the CLIENT is lost right after a fault period (finding c02:stale-query): the server, in lazy mode, still holds a
+    query from before / during the faults; the client's later queries were lost, so that query's id has left the client's window of three ids; a
+    packet that fits in ONE fragment is sent as the answer to it in the very iteration that read it from the tun device, is never acknowledged nor
+    kept ("Whole packet was sent in one chunk, dont wait for ack", send_chunk_or_dataless), and the client ignores the answer"""
+    import world
+    hx = vlib.hx(f)
+    for op, line in zip(r.get("sops", []), r.get("slines", [])):
+        if op == "tun " + hx:
+            ev = world.srvgen.parse_line(line)[0]
+            ans = [e for e in ev if e[0] == "ans" and e[6].endswith(hx) and len(e[6]) == len(hx) + 6 and int(e[6][2:4], 16) & 1]
+            if not ans:
+                return False
+            qid = ans[0][2]
+            for cop, cl in zip(r.get("cops", []), r.get("clines", [])):
+                if cop.startswith("ans "):
+                    cev, sel, st = world.parse_cli(cl)
+                    rq = next((e for e in cev if e[0] == "rq"), None)
+                    if rq is not None and rq[2] == qid and rq[6] == ans[0][6]:
+                        cur = st.get("cid", "").split("/")
+                        return not any(e[0] == "tunw" for e in cev) and qid not in cur
+            return False
+    return False
+
+
 def run(chk):
     rng, thorough = chk.rng, chk.tier == "thorough"
     proof_ok = chk.proofs()
@@ -46,6 +71,8 @@ def run(chk):
             cfg = W.random_config(rng, {"raw_mode": 1 if k % 20 < 10 else 0})
             jobs.append((chk.seed * 2000 + k, cfg, {}, None, 2, False, ["uponly", "downonly", "idle"][(k // 10 + k) % 3]))
         elif k % 2 == 0:
+            if k % 20 == 2:
+                cfg["raw_mode"] = 1          # the plain clean scenario in raw mode as well (`clean_path_exactly_once_in_order_raw`)
             jobs.append((chk.seed * 2000 + k, cfg, {}, None, 10 if thorough else 6, False, "clean"))
         else:
             fault = {"drop": rng.choice([0.1, 0.3, 0.6, 1.0]), "dup": rng.choice([0.0, 0.3]), "delay": rng.choice([0, 200, 2000]), "ms": rng.choice([5000, 15000, 40000]),
@@ -55,6 +82,9 @@ def run(chk):
                 # total black-out plus its own idle gap would exceed the session timeout without the network being bad for 60 s
                 fault["ms"] = min(fault["ms"], 15000)
             jobs.append((chk.seed * 2000 + k, cfg, {}, fault, 4, False, "recovery"))
+    for j in jobs:
+        # every C02 world is run as a schedule of `World.Ev` (checks/world.py, model_clock) so that the joined model can be put next to it
+        j[1]["model_clock"] = True
     res = W.run_worlds(jobs)
     bad, delivered = 0, 0
     for r in res:
@@ -118,9 +148,10 @@ def run(chk):
                 for t, f in late:
                     hit = [tt for tt, g in got if g == f and tt >= t]
                     if not hit or hit[0] - t > RECOVERY_BOUND_MS:
+                        key = "c02:stale-query" if (side == "client" and not hit and stale_query_loss(r, f)) else "c02:recovery"
                         chk.violation("C02 fails on the implementation: %d ms after the path became clean a %d-byte packet offered for the %s was %s (configuration %s, negotiated %s, faults %s)"
                                       % (t - r["clean_at"], len(f), side, "not delivered within %d ms" % RECOVERY_BOUND_MS if not hit else "delivered only after %d ms" % (hit[0] - t), r["cfg"], r["negotiated"], r["fault"]),
-                                      r["log"], key="c02:recovery")
+                                      r["log"], key=key)
                         bad += 1
                         break
     chk.cov["evaluations"] = sum(len(r["log"]) for r in res)
@@ -135,6 +166,7 @@ def run(chk):
         chk.sample({"cfg": r["cfg"], "negotiated": r["negotiated"], "scenario": r["scenario"], "fault": r["fault"], "delivered": len(r["tunw_s"]) + len(r["tunw_c"])})
     W.report_client_model(chk, res, "C02")
     W.report_server_model(chk, res, "C02")
+    W.report_world_model(chk, res, "C02")
     W.report_rseq(chk, "C02")
     if not chk.violations and not proof_ok:
         chk.violation("proof obligation no longer checks: " + chk.proof_detail,
